@@ -522,6 +522,36 @@ async fn run_case(addr: SocketAddr, certs: &Certs, t: &[&str]) -> anyhow::Result
                 Ok(format!("{a} got={} probe=ok", if got.is_empty() { "-".to_string() } else { got.join("+") }))
             }
         }
+        "takeover" => {
+            // a library replier that was turned away keeps trying (constant back-off, 3 s); the bound replier goes away; a request
+            // with a long time limit is made while nobody is bound and waits in the topic; when the waiting replier registers
+            // again it is bound, is handed that request at once, and answers it and the next one
+            let (ns, tp) = fresh();
+            let topic = format!("/{ns}/{tp}");
+            let conn = raw(addr, certs).await?;
+            let mut r1 = raw_stream(&conn).await?;
+            r1.send(reg_frame("RR", &ns, &tp)).await?;
+            let a1 = answer(&mut r1).await;
+            let second = crate::e2e::client(addr, certs, BackoffStrategy::constant().with_step(Duration::from_secs(3)).with_max_attempts(10)).await?;
+            let t2 = topic.clone();
+            let late = tokio::spawn(async move {
+                let mut replier = second.replier(&t2).with_request_decoder(StringCodec).with_reply_encoder(StringCodec)
+                    .with_handler(|req: String| async move { Ok::<_, anyhow::Error>(format!("second:{req}")) }).open().await?;
+                replier.listen().await
+            });
+            tokio::time::sleep(Duration::from_millis(400)).await;
+            drop(r1);
+            conn.close(0u32.into(), b"gone");
+            tokio::time::sleep(Duration::from_millis(1000)).await;
+            let third = crate::e2e::client(addr, certs, BackoffStrategy::constant().with_max_attempts(0)).await?;
+            let mut rq = third.requestor(&topic).with_request_encoder(StringCodec).with_reply_decoder(StringCodec).with_request_timeout(9000u64)?.open().await?;
+            let mut res = vec![];
+            for q in ["w0", "w1"] {
+                res.push(match rq.request(q.to_string()).await { Ok(s) => s, Err(e) => format!("err:{}", format!("{e:?}").split(|c: char| !c.is_alphanumeric()).next().unwrap_or("?")) });
+            }
+            late.abort();
+            Ok(format!("{a1} first={} second={} probe=ok", res[0], res[1]))
+        }
         "leave" => {
             // a publisher that has handed everything over - `finish()` has completed: every byte is acknowledged by the server -
             // leaves with its whole connection while the topic is held up by a subscriber that is not reading yet: what the
@@ -881,6 +911,7 @@ pub fn run_named(cfg: &Cfg, name: &str) {
         cases.push("reg halfclosed RQ".into());
         cases.push("reg leave 60 32".into());
         cases.push("reg leave 3 1".into());
+        cases.push("reg takeover".into());
         cases.push("reg rebind served".into());
         cases.push("reg rebind alone".into());
         cases.push("reg pipeline RP".into());
@@ -955,6 +986,9 @@ pub fn run_named(cfg: &Cfg, name: &str) {
                     }
                     if t[1] == "leave" && !line.contains("/handed") && !line.contains(&format!("got={} ", t[2])) {
                         m = Err(format!("C01/C03: a publisher finished (every byte acknowledged) and left with its connection while a subscriber was not reading yet: the subscriber then read only a prefix of the {} messages the server had taken: {line}", t[2]));
+                    }
+                    if t[1] == "takeover" && !line.contains("first=second:w0 second=second:w1") {
+                        m = Err(format!("C10/C12: a replier that had been turned away registered again after the bound one left; the request that was waiting in the topic, or the one after it, was not answered by it: {line}"));
                     }
                     if t[1] == "rebind" {
                         let want = if t[2] == "alone" { "first=- told=nothing second=pong2" } else { "first=pong1 told=nothing second=pong2" };
